@@ -160,8 +160,35 @@ def gen(rng, idx, tier):
         # variable font must still match the master compiled alone with the same filter
         stratum = "prefilter_anchors"
         filters = ["PropagateAnchorsFilter"]
+    if stratum == "default" and kern == "aligned" and rng.random() < 0.3:
+        categories_with_mark_kerning(rng, ds)
     return {"stratum": stratum, "ds": ds, "func": func, "variableFeatures": varfea,
             "filters": filters, "lib": rng.choice(["defcon", "ufoLib2"])}
+
+
+def categories_with_mark_kerning(rng, ds):
+    """Every master declares its glyph categories in the UFO lib (public.openTypeCategories:
+    glyphs with a '_x' anchor are marks) and kerns one base against one mark, with a value of
+    its own: such a pair only applies when the kern writer knows the mark set (it has to stay
+    out of the lookups that ignore marks)."""
+    base0 = ds["ufos"][0]["glyphs"]
+    marks = [g["name"] for g in base0 if any(a["name"].startswith("_") for a in g["anchors"])]
+    bases = [g["name"] for g in base0 if g["name"] not in marks and g["name"] != ".notdef"]
+    if not marks or not bases:
+        return False
+    cats = {n: "mark" for n in marks}
+    cats.update({n: "base" for n in bases})
+    b, m = rng.choice(bases), rng.choice(marks)
+    swap = rng.random() < 0.3
+    for ui, u in enumerate(ds["ufos"]):
+        if not u.get("glyphs"):
+            continue
+        u.setdefault("lib", {})["public.openTypeCategories"] = dict(cats)
+        pair = [m, b] if swap else [b, m]
+        u["kerning"] = [k for k in (u.get("kerning") or []) if k[:2] != pair]
+        u["kerning"].append(pair + [-15 - 10 * ui])
+    ds.setdefault("meta", {})["mark_kerning"] = {"pair": [m, b] if swap else [b, m]}
+    return True
 
 
 def prefilter_anchors(rng, ds):
@@ -400,6 +427,8 @@ def judge_layout(case, ufo, inst, si, uloc, all_kern_keys, bump, tol=0):
                 if rs["xadv"] == exp:
                     ri = gi.pair(a, b_, tag)
                     bump("kerning_pairs_judged")
+                    if exp and [a, b_] == (case["ds"].get("meta") or {}).get("mark_kerning", {}).get("pair"):
+                        bump("base_mark_kerning_pairs_with_lib_categories_judged")
                     union = set().union(*all_kern_keys)
                     ga, gb = rk.g1.get(a), rk.g2.get(b_)
                     cover = [k for k in ((a, b_), (a, gb), (ga, b_), (ga, gb)) if None not in k]
